@@ -273,7 +273,13 @@ class HttpParser:
 
         # URI
         self._url = bits[1]
-        parts = urlsplit(bits[1])
+        if bits[1].startswith('//'):
+            # An origin-form request-target (RFC 7230 5.3.1) is an absolute
+            # path: "//a/b" is the path "//a/b", not a network-path reference
+            # to the host "a" with the path "/b".
+            parts = urlsplit('//' + bits[1])
+        else:
+            parts = urlsplit(bits[1])
         self._scheme = parts.scheme or None
         self._path = parts.path or ''
         self._query_string = parts.query or ''
